@@ -113,6 +113,52 @@ func lossTol(kind string, p, t *ref.T) float64 {
 	return s/n + 1e-13
 }
 
+// ceStructuredRows overwrites target rows of a CE case with rows that LOOK like labels under some aggregate test but are not
+// (all values exactly representable): one-hot rows; a one-hot row plus a cancelling pair +a / -a (maximum 1, sum 1, one entry
+// negative); {-1, 1, 1, 0...}; soft labels summing to exactly 1; a row summing to 1 with an entry above 1; an all-zero row.
+func ceStructuredRows(k *fw.K, t *ref.T, present map[string]bool) {
+	r := k.Rng
+	b, cl := t.Shape[0], t.Shape[1]
+	for row := 0; row < b; row++ {
+		v := t.Data[row*cl : (row+1)*cl]
+		if r.Intn(4) == 0 {
+			continue // keep the unstructured row
+		}
+		for i := range v {
+			v[i] = 0
+		}
+		hot := r.Intn(cl)
+		pattern := r.Intn(6)
+		if cl < 3 && (pattern == 1 || pattern == 2) {
+			pattern = 0
+		}
+		perm := r.Perm(cl)
+		switch pattern {
+		case 0:
+			v[hot] = 1
+		case 1: // maximum exactly 1, sum exactly 1, one negative entry
+			a := []float64{0.5, 0.25, 1, 0.125}[r.Intn(4)]
+			v[perm[0]], v[perm[1]], v[perm[2]] = 1, a, -a
+		case 2:
+			v[perm[0]], v[perm[1]], v[perm[2]] = -1, 1, 1
+		case 3: // soft labels
+			if cl >= 2 {
+				v[perm[0]], v[perm[1]] = 0.75, 0.25
+			} else {
+				v[0] = 1
+			}
+		case 4: // sums to 1 with an entry above 1
+			if cl >= 2 {
+				v[perm[0]], v[perm[1]] = 1.5, -0.5
+			} else {
+				v[0] = 1.5
+			}
+		}
+		present[fmt.Sprintf("t:row-pattern-%d", pattern)] = true
+	}
+	k.Count("ce_cases_with_structured_target_rows", 1)
+}
+
 func runC12(c *fw.Ctx) {
 	deeperBounds(!c.Quick())
 	// one loss object used for a sequence of batches of DIFFERENT shapes (equal element counts included), long batches included
@@ -217,6 +263,9 @@ func runC12(c *fw.Ctx) {
 							p.Data[i], t.Data[i] = lossValue(k, pc), lossValue(k, tc)
 							present["p:"+lossClassNames[pc]] = true
 							present["t:"+lossClassNames[tc]] = true
+						}
+						if kind == "ce" && k.Rng.Intn(3) == 0 {
+							ceStructuredRows(k, t, present)
 						}
 						k.Case = lossCase{Loss: kind, Pred: p, Target: t}
 						k.Key("%s/%d/%d/%v", kind, b, cl, present)
